@@ -266,7 +266,7 @@ TreeChecks(s, e, m, D, rv, sv, svok) ==
    IN  Tag("C04.decode", Blank(D.facts, lag) = wantB)
        \cup Tag("C04.decode_stamps", TimesSkip(D.times, lag) = mt)
        \cup (IF rv.ok THEN Tag("C04.remount", ~ViewBad(rvT) /\ Blank(ViewFacts(rvT, TRUE), lag) = wantB)
-                           \cup Tag("C04.view_size", \A i \in 1..Len(rvT) : rvT[i].k = "f" => (rvT[i].sz = Len(rvT[i].c) * s.U /\ ~Has(rvT[i], "cerr")))
+                           \cup Tag("C04.view_size", \A i \in 1..Len(rvT) : (rvT[i].k = "f" /\ rvT[i].p \notin lag) => (rvT[i].sz = Len(rvT[i].c) * s.U /\ ~Has(rvT[i], "cerr")))
                            \cup Tag("C18.stamps", TimesSkip(ViewTimes(rvT), lag) = mt)
              ELSE {"C04.remount"})
        \cup (IF svok THEN Tag(IF err THEN "C01.atomic_on_error" ELSE "C01.tree_after",
